@@ -217,9 +217,10 @@ Section Spec.
 
   Definition atol8 : F := nfrac O 1 100000000.
   (* all three coordinates within atol *)
-  Definition vclose8 (a p : vec3 F) : bool :=
-    nleb O (nabs O (nsub O (vx a) (vx p))) atol8 && nleb O (nabs O (nsub O (vy a) (vy p))) atol8 &&
-    nleb O (nabs O (nsub O (vz a) (vz p))) atol8.
+  Definition vclose (atol : F) (a p : vec3 F) : bool :=
+    nleb O (nabs O (nsub O (vx a) (vx p))) atol && nleb O (nabs O (nsub O (vy a) (vy p))) atol &&
+    nleb O (nabs O (nsub O (vz a) (vz p))) atol.
+  Definition vclose8 (a p : vec3 F) : bool := vclose atol8 a p.
   (* lowest index of a matching vertex *)
   Fixpoint spec_find_from (i : nat) (l : list (vec3 F)) (p : vec3 F) : option nat :=
     match l with
